@@ -77,22 +77,31 @@ theorem NoConflict.eq (og : Option (Str × List Nat)) (vs : List Node) (i : Nat)
 
 /-! ## State layer -/
 
+/-- the oneof check of `buildValue` for property `i` of schema `s` passes -/
+def NoConflictAt (s : Schema) (i : Nat) (og : Option (Str × List Nat)) (vs : List Node) : Prop :=
+  ∀ g, og = some g → oneofConflict g i 0 s.props vs = false
+
+theorem NoConflict.at {og : Option (Str × List Nat)} {vs : List Node} (h : NoConflict og vs) (s : Schema)
+    (i : Nat) : NoConflictAt s i og vs := by
+  intro g hg
+  rcases h with h | h
+  · rw [h] at hg; cases hg
+  · exact oneofConflict_unpop g i s.props vs h 0
+
 /-- `buildValue` on a property without oneof conflict -/
-theorem buildValue_exact {env : Env} {c : Addr} {s : Schema} {i : Nat} {p : Property}
+theorem buildValue_exact' {env : Env} {c : Addr} {s : Schema} {i : Nat} {p : Property}
     {kind : FieldKind} {t : List Bool} {vs : List Node} {cur : Node}
     (hk : classify env s.name p = .ok kind) (hv : vs[i]? = some cur)
-    (hconf : NoConflict p.oneofGroup vs) :
+    (hconf : NoConflictAt s i p.oneofGroup vs) :
     Exact (buildValue env c s i p) c (.msg t vs) ⟨c ++ [i], kind⟩
       (.msg (t.set i true) (vs.set i (builtValue kind cur))) := by
   unfold buildValue
   refine Exact.bind Exact.getNode_self ?_
   dsimp only
   refine Exact.ite_neg ?_ ?_
-  · rcases hconf with h | h
-    · simp [h]
-    · cases hg : p.oneofGroup with
-      | none => simp
-      | some g => simp [oneofConflict_unpop g i s.props vs h 0]
+  · cases hg : p.oneofGroup with
+    | none => simp
+    | some g => simp [hconf g hg]
   · rw [hk, hv]
     refine Exact.bind (Exact.liftRes rfl) ?_
     dsimp only
@@ -100,11 +109,11 @@ theorem buildValue_exact {env : Env} {c : Addr} {s : Schema} {i : Nat} {p : Prop
     exact Exact.pure _ _ _
 
 /-- `GetOrCreateValue` / `NewValue` on a property not touched yet: the wrapper is built -/
-theorem propSetValue_build {env : Env} {c : Addr} {s : Schema} {name : Str} {i : Nat}
+theorem propSetValue_build' {env : Env} {c : Addr} {s : Schema} {name : Str} {i : Nat}
     {og : Option (Str × List Nat)} {kind : FieldKind} {t : List Bool} {vs : List Node} {cur : Node}
     (mustBeNew : Bool)
     (hpi : propInfo env s name = some (i, og, kind)) (ht : t[i]? = some false) (hv : vs[i]? = some cur)
-    (hconf : NoConflict og vs) :
+    (hconf : NoConflictAt s i og vs) :
     Exact (propSetValue env c s name mustBeNew) c (.msg t vs) ⟨c ++ [i], kind⟩
       (.msg (t.set i true) (vs.set i (builtValue kind cur))) := by
   obtain ⟨p, hf, hog, hk⟩ := propInfo_spec hpi
@@ -116,7 +125,16 @@ theorem propSetValue_build {env : Env} {c : Addr} {s : Schema} {name : Str} {i :
   rw [M.bind_apply, getNode_apply, hS]
   dsimp only
   rw [ht, if_neg (by simp)]
-  exact buildValue_exact hk hv hconf S hS
+  exact buildValue_exact' hk hv hconf S hS
+
+theorem propSetValue_build {env : Env} {c : Addr} {s : Schema} {name : Str} {i : Nat}
+    {og : Option (Str × List Nat)} {kind : FieldKind} {t : List Bool} {vs : List Node} {cur : Node}
+    (mustBeNew : Bool)
+    (hpi : propInfo env s name = some (i, og, kind)) (ht : t[i]? = some false) (hv : vs[i]? = some cur)
+    (hconf : NoConflict og vs) :
+    Exact (propSetValue env c s name mustBeNew) c (.msg t vs) ⟨c ++ [i], kind⟩
+      (.msg (t.set i true) (vs.set i (builtValue kind cur))) :=
+  propSetValue_build' mustBeNew hpi ht hv (hconf.at s i)
 
 /-- `GetOrCreateValue` on a touched property: the cached wrapper, nothing changes -/
 theorem propSetValue_cached {env : Env} {c : Addr} {s : Schema} {name : Str} {i : Nat}
